@@ -303,3 +303,34 @@ def fc_truth(draw, keys):
 def hints_for(keys):
     """hint texts that embed their key"""
     return {key: f"Hinweis {key}" for key in keys}
+
+
+@st.composite
+def g_dom_invalid(draw, max_atoms=12, pools=None):
+    """an expression of the evaluation domain that is invalid by the structural criterion, offending node anywhere"""
+    pools = pools or {}
+    ast = draw(g_dom(max_atoms=max_atoms, mode="any", pools=pools))
+    if ref.validity(ast) == "invalid":
+        return ast
+    candidates = []
+    for path, node in ref.sites(ast):
+        if path:
+            parent = ref.node_at(ast, path[:-1])
+            if parent[0] == "then" and node[0] == "fc":
+                continue  # the attached format constraint itself stays a single key
+        candidates.append(path)
+    path = draw(st.sampled_from(candidates))
+    target = ref.node_at(ast, path)
+    kind = draw(st.sampled_from(["or", "xor"]))
+    if ref.has_rc(target):
+        choice = draw(st.sampled_from(["hint", "fc", "then"]))
+        if choice == "hint":
+            other = ["hint", draw(hint_key(pools.get("hint")))]
+        elif choice == "fc":
+            other = ["fc", draw(fc_key(pools.get("fc")))]
+        else:
+            other = ["then", [["hint", draw(hint_key(pools.get("hint")))], ["fc", draw(fc_key(pools.get("fc")))]]]
+    else:
+        other = ["rc", draw(rc_key(pools.get("rc")))]
+    pair = [target, other] if draw(st.booleans()) else [other, target]
+    return ref.replace_at(ast, path, lambda _: [kind, pair])
